@@ -19,6 +19,9 @@ def to_kg(v, units, M):
 
 def obligations(cx):
     src = cx.src
+    # composition of the two halves of the round trip inside the package: Pervaporation.ideal_diffusion_curve (observe_at of C09)
+    from .c08 import curve_built_under_the_flux_conditions
+    curve_built_under_the_flux_conditions(cx, prefix='ideal-curve')
     cx.functions[PI] = dict(span=src.span(src.find(PI)), how="body executed symbolically")
     cx.under_contract('DiffusionCurve.permeate_composition')
     Tt, TP, PP = C2.Tt, C2.TP, C2.PP
